@@ -64,31 +64,41 @@ Definition script_node : snode :=
 
 Definition is_active (n : str) : bool := mem_str n Tables.active_elements.
 
-(* _deactivate_deleted_active_elements: every script/style below a <del> is wrapped in an inert template; when it
-   sits in embedded SVG or MathML, where a <template> is no HTML template, the outermost svg/math element is wrapped
-   instead (once) *)
+(* _deactivate_deleted_active_elements: every script/style below a <del> is wrapped in an inert template.  Inside
+   embedded SVG or MathML a <template> is no HTML template, so there the element is moved out of the graphic, into a
+   template placed right after the outermost svg/math element (document order kept). *)
 Definition is_foreign (n : str) : bool := str_eqb n (s2l "svg") || str_eqb n (s2l "math").
 Definition inert_wrap (n : snode) : snode :=
   SEl (s2l "template") [(s2l "class", s2l "wm-diff-deleted-inert")] false [n].
+Definition is_del (n : str) : bool := str_eqb n (s2l "del").
 
-(* does the tree hold a script/style that has a <del> ancestor? *)
-Fixpoint deleted_active (under_del : bool) (n : snode) : bool :=
+(* the (outermost) scripts/styles of a tree that have a <del> ancestor, in document order *)
+Fixpoint deleted_actives (under_del : bool) (n : snode) : list snode :=
   match n with
-  | SText _ => false
+  | SText _ => []
   | SEl name _ _ children =>
-      (under_del && is_active name) || existsb (deleted_active (under_del || str_eqb name (s2l "del"))) children
+      if under_del && is_active name then [n]
+      else flat_map (deleted_actives (under_del || is_del name)) children
   end.
 
-Fixpoint deactivate (under_del : bool) (n : snode) : snode :=
+(* the tree without them *)
+Fixpoint strip_deleted_actives (under_del : bool) (n : snode) : list snode :=
   match n with
-  | SText _ => n
+  | SText _ => [n]
   | SEl name attrs void children =>
-      if is_foreign name then (if deleted_active under_del n then inert_wrap n else n)
+      if under_del && is_active name then []
+      else [SEl name attrs void (flat_map (strip_deleted_actives (under_del || is_del name)) children)]
+  end.
+
+Fixpoint deactivate (under_del : bool) (n : snode) : list snode :=
+  match n with
+  | SText _ => [n]
+  | SEl name attrs void children =>
+      if is_foreign name
+      then strip_deleted_actives under_del n ++ map inert_wrap (deleted_actives under_del n)
       else
-      let me := SEl name attrs void (map (deactivate (under_del || str_eqb name (s2l "del"))) children) in
-      if under_del && is_active name
-      then inert_wrap me
-      else me
+        let me := SEl name attrs void (flat_map (deactivate (under_del || is_del name)) children) in
+        if under_del && is_active name then [inert_wrap me] else [me]
   end.
 
 (* one view: copy of the base page, extra head nodes, the body replaced by the diff body plus the script *)
@@ -103,7 +113,7 @@ Definition view_doc (k : kind) (old new : sdoc) (title_ops : list (Z * str)) (ic
   match k with
   | KCombined =>
       {| d_doctype := d_doctype base; d_html_attrs := d_html_attrs base; d_head_attrs := d_head_attrs base;
-         d_head := map (deactivate false) head; d_body_attrs := d_body_attrs base; d_body := map (deactivate false) body |}
+         d_head := flat_map (deactivate false) head; d_body_attrs := d_body_attrs base; d_body := flat_map (deactivate false) body |}
   | _ =>
       {| d_doctype := d_doctype base; d_html_attrs := d_html_attrs base; d_head_attrs := d_head_attrs base;
          d_head := head; d_body_attrs := d_body_attrs base; d_body := body |}
